@@ -10,6 +10,7 @@ import (
 	"fmt"
 	"reflect"
 	"strings"
+	"time"
 
 	"pault.ag/go/debian/control"
 	"pault.ag/go/debian/dependency"
@@ -39,6 +40,12 @@ type c09All struct {
 	Hashes    []control.SHA256FileHash `control:"Checksums-Sha256" delim:"\n" strip:"\n\r\t "`
 	Text      string
 	Multi     string `multiline:"true"`
+	// skipped fields may be of any kind: nothing is ever asked of them
+	SkipMap   map[string]int  `control:"-"`
+	SkipTime  time.Time       `control:"-"`
+	SkipFunc  func() error    `control:"-"`
+	SkipFloat float64         `control:"-"`
+	skipInner struct{ x int } `control:"-"`
 }
 
 // c09Pass embeds the raw paragraph: unknown fields must pass through.
@@ -724,6 +731,21 @@ func c09Sequence(r *rt.Run) {
 		return
 	}
 	r.Probe("sequence-with-values-that-marshal-to-nothing")
+	if len(w.Buf) > 0 && t.Bool(1, 4, "config.faulty") {
+		// the store fails while the list is read back: an error, not a shorter list
+		var part []c09Opt
+		rd := simio.NewReader(r, "store", w.Buf)
+		rd.FailAt(t.Draw(len(w.Buf), "faultpos"))
+		var ferr error
+		task := r.Solo("unmarshal", func() { ferr = control.Unmarshal(&part, rd) })
+		if taskTrouble(r, "C09", "Unmarshal/sequence/faulty", task) {
+			return
+		}
+		if rd.Failed() && ferr == nil {
+			r.Violate("C09/read-error-swallowed", "Unmarshal-into-a-list", "the source failed after %d of %d bytes but Unmarshal into a list returned nil and %d of %d values", rd.Pos(), len(w.Buf), len(part), len(want))
+		}
+		return
+	}
 	var back []c09Opt
 	uerr, task := c09Unmarshal(r, &back, w.Buf)
 	if taskTrouble(r, "C09", "Unmarshal/sequence", task) {
